@@ -117,7 +117,7 @@ fn main() {
             rep.count("records", n);
         }
         "record-lib" => {
-            let n = rec_lib::record(args.val("--trace").expect("--trace"), args.val("--family").unwrap_or("mixed"), args.num("--count", 1000) as usize, seed, args.val("--force").unwrap_or("avx2"));
+            let n = rec_lib::record(args.val("--trace").expect("--trace"), args.val("--family").unwrap_or("mixed"), args.num("--count", 1000) as usize, seed, args.val("--force").unwrap_or("avx2"), args.val("--kinds").unwrap_or(""), args.val("--group").unwrap_or("all"));
             rep.count("records", n);
         }
         "conc-child" => {
